@@ -1,5 +1,6 @@
 pub mod builtin;
 pub mod evolution;
+pub mod faults;
 pub mod framing;
 pub mod sinks;
 pub mod varint;
@@ -13,6 +14,8 @@ pub fn run(cx: &Cx) -> PropResult {
         "C01" => builtin::run_c01(cx),
         "C03" => evolution::run_c03(cx),
         "C04" => builtin::run_c04(cx),
+        "C05" => faults::run_c05(cx),
+        "C06" => faults::run_c06(cx),
         "C07" => framing::run_c07(cx),
         "C08" => framing::run_c08(cx),
         "C11" => varint::run(cx),
@@ -30,6 +33,8 @@ pub fn replay(cx: &Cx, case: &Value) -> Verdict {
         "C01" => builtin::replay_c01(case),
         "C03" => evolution::replay_c03(case),
         "C04" => builtin::replay_c04(case),
+        "C05" => faults::replay_c05(case),
+        "C06" => faults::replay_c06(case),
         "C07" => framing::replay_c07(case),
         "C08" => framing::replay_c08(case),
         "C11" => varint::replay(case),
@@ -39,5 +44,15 @@ pub fn replay(cx: &Cx, case: &Value) -> Verdict {
             eprintln!("unknown property {other}");
             std::process::exit(2)
         }
+    }
+}
+
+/// regenerates the case a worker thread was executing (crash / hang forensics); None if the property's streams
+/// are not regenerable
+pub fn regen(cx: &Cx, shard: usize, stream: u64, index: u64) -> Option<Value> {
+    match cx.prop {
+        "C05" => faults::regen_c05(cx, shard, stream, index),
+        "C06" => faults::regen_c06(cx, shard, stream, index),
+        _ => None,
     }
 }
